@@ -50,3 +50,12 @@ package usage
 //@        (labelPersisted && used.GetLabels()[inUseLabelKey] == "true")
 //@   assert [C19:available-only-when-owned] (len($cs) == 1 && $cs[0].Type == "Ready" && $cs[0].Status == "True" && by != nil) ==>
 //@        exists i :: 0 <= i && i < len(u.GetOwnerReferences()) && u.GetOwnerReferences()[i].UID == $using.GetUID()
+
+// C19 (a Usage by a resource stays owned by it): when a composed Usage is applied again, the
+// owner references it already has - the using resource among them - are carried over to the
+// desired object; the option never writes other owner references and never fails the apply.
+//@ func usage.RespectOwnerRefs$1
+//@ props C19
+//@ optional site (v1.Object).SetOwnerReferences($o, $refs) as carry-owners
+//@   assert [C19:only-the-existing-owners-of-the-usage-are-carried-over] $o == desired && typeis(current, *composed.Unstructured) && $refs == as(current, *composed.Unstructured).GetOwnerReferences() && len($refs) > 0
+//@ ensures [C19:the-option-never-fails-the-apply] result == nil
